@@ -11,7 +11,7 @@
 (*     <<"NONCONF", id, group, {failed checks}>>                           *)
 (* adopts the logged state and goes on, so every event is examined.        *)
 (***************************************************************************)
-EXTENDS GraphQuery, Json, IOUtils
+EXTENDS GraphDerive, Json, IOUtils
 
 Rec == ndJsonDeserialize(IOEnv.TRACE)
 
@@ -47,6 +47,24 @@ MutChecks(e) ==
          <<"wellformed", WellFormed(post)>>,
          <<"rejected_changes_nothing", (e.res # "Ok" /\ e.op.k \in {"add_edge", "add_edge_tuple"}) => post = pre>>>>
 
+DeriveKinds == {"subgraph", "reverse", "set_weights", "to_single"}
+
+(* C15: the derived graph is exactly as specified, satisfies C01's well-formedness
+   for its own specs, and the source graph is left unchanged *)
+DeriveChecks(e) ==
+  IF e.res = "Panic" THEN <<<<"panic", FALSE>>>>
+  ELSE LET pre == PreOf(e)
+           x == DeriveRule(pre, e.op)
+           post == ToGraph(e.post)
+       IN <<<<"res", e.res = x.res>>,
+            <<"derived_nodes", x.res = "Ok" => post.nodes = x.g.nodes>>,
+            <<"derived_edges", x.res = "Ok" => post.edges = x.g.edges>>,
+            <<"derived_specs", x.res = "Ok" => post.specs = x.g.specs>>,
+            <<"wellformed", WellFormed(post)>>>>
+
+DeriveSrcChecks(e) ==
+  IF e.res = "Panic" THEN <<>> ELSE <<<<"source_unchanged", e.src_after = Rec[e.parent].post>>>>
+
 (* C02 (indexes): every private index describes the logged abstract state *)
 SnapChecks(e) ==
   LET post == ToGraph(e.post) IN
@@ -68,12 +86,15 @@ Report(e, group, checks) ==
 Consume(e) ==
   IF e.op.k = "query" THEN
        IF e.res = "Panic" THEN PrintT("NONCONF " \o ToString(e.id) \o " query {\"panic\"}")
-       ELSE /\ Report(e, "query", QueryChecks(ToGraph(e.post), e.q))
+       ELSE /\ Report(e, IF Rec[e.parent].op.k \in DeriveKinds THEN "derived_query" ELSE "query",
+                      QueryChecks(ToGraph(e.post), e.q))
             /\ Report(e, "counts", CountChecks(ToGraph(e.post), e.q))
             /\ Report(e, "query_state", <<<<"state_unchanged", e.post = Rec[e.parent].post>>>>)
-  ELSE /\ Report(e, "mut", MutChecks(e))
-       /\ (e.has_snap => Report(e, "snap", SnapChecks(e)))
-       /\ (e.has_snap => Report(e, "vec", VecChecks(e)))
+  ELSE /\ IF e.op.k \in DeriveKinds
+            THEN Report(e, "derive", DeriveChecks(e)) /\ Report(e, "derive_src", DeriveSrcChecks(e))
+            ELSE Report(e, "mut", MutChecks(e))
+       /\ (e.has_snap => Report(e, IF e.op.k \in DeriveKinds THEN "derived_snap" ELSE "snap", SnapChecks(e)))
+       /\ (e.has_snap => Report(e, IF e.op.k \in DeriveKinds THEN "derived_vec" ELSE "vec", VecChecks(e)))
 
 Init == l = 1 /\ g = <<>>
 
